@@ -1,0 +1,56 @@
+//! Hooks for the external verification harness (cargo feature `verif-hooks`).
+//!
+//! Everything in here only re-exports crate-private items or lets the harness
+//! pin the verification clock; with the feature off this module does not exist.
+
+use std::cell::Cell;
+use std::collections::HashMap;
+
+use chrono::{DateTime, Utc};
+
+use crate::models::supply_chain_item::SupplyChainItem;
+use crate::models::{LinkMetadata, VirtualTargetPath};
+use crate::Result;
+
+thread_local! {
+    static NOW: Cell<Option<DateTime<Utc>>> = const { Cell::new(None) };
+}
+
+/// Pin (or unpin with `None`) the clock read by layout expiry verification
+/// on the current thread.
+pub fn set_now(now: Option<DateTime<Utc>>) {
+    NOW.with(|c| c.set(now));
+}
+
+/// The pinned clock of the current thread, if any.
+pub fn now_override() -> Option<DateTime<Utc>> {
+    NOW.with(|c| c.get())
+}
+
+/// `rulelib::apply_rules_on_link`
+pub fn apply_rules_on_link(
+    item: &Box<dyn SupplyChainItem>,
+    reduced_link_files: &HashMap<String, LinkMetadata>,
+) -> Result<()> {
+    crate::rulelib::apply_rules_on_link(item, reduced_link_files)
+}
+
+/// `VirtualTargetPath::matches`
+pub fn path_matches(path: &VirtualTargetPath, pattern: &str) -> Result<bool> {
+    path.matches(pattern)
+}
+
+/// `DSSEVersion::V1.pack`
+pub fn pae_pack(payload: &[u8], payload_ver: String) -> Vec<u8> {
+    crate::models::DSSEVersion::V1.pack(payload, payload_ver)
+}
+
+/// `DSSEVersion::V1.unpack`
+pub fn pae_unpack(bytes: &[u8]) -> Result<(Vec<u8>, String)> {
+    crate::models::DSSEVersion::V1.unpack(bytes)
+}
+
+/// `DSSEVersion::try_unpack`
+pub fn pae_try_unpack(bytes: &[u8]) -> Result<(Vec<u8>, String)> {
+    crate::models::DSSEVersion::try_unpack(bytes)
+}
